@@ -1188,10 +1188,33 @@ func (c *Check) dotEdgesDeclared() {
 	// a comma-ok lookup (or comparison of a lookup with 0) of an edge's Dest in the id map, anywhere
 	// on the way of the edges from the nodes' Out maps to addEdge
 	tested := false
-	for _, b := range f.Blocks {
+	// the id map itself, or the parameter of a helper of ComposeDot that receives it
+	isIDMap := func(x ssa.Value) bool {
+		if x == idMap {
+			return true
+		}
+		par, ok := x.(*ssa.Parameter)
+		if !ok {
+			return false
+		}
+		for i, q := range par.Parent().Params {
+			if q != par {
+				continue
+			}
+			for _, b := range f.Blocks {
+				for _, ins := range b.Instrs {
+					if call, ok := ins.(ssa.CallInstruction); ok && call.Common().StaticCallee() == par.Parent() && i < len(call.Common().Args) && call.Common().Args[i] == idMap {
+						return true
+					}
+				}
+			}
+		}
+		return false
+	}
+	for _, b := range helperBlocks(f, 2) {
 		for _, ins := range b.Instrs {
 			lk, ok := ins.(*ssa.Lookup)
-			if !ok || lk.X != idMap {
+			if !ok || !isIDMap(lk.X) {
 				continue
 			}
 			if !isFieldLoad(lk.Index, "graph.Edge", "Dest") {
